@@ -18,15 +18,16 @@ FAMILIES = [  # name, procs, progs, cbsends, gated, cbwrites
     ("f1", '"a", "b"', "P2f", '"process"', "FALSE", ""),        # failing precondition exits, then more calls
     ("t1", '"a", "b"', "P2t", '', "FALSE", ""),                  # Sends, a threshold setter, Sends again
     ("r1", '"a", "b"', "P2rw", '', "FALSE", ""),                 # getters among writers
+    ("g1", '"a", "b"', "P2sw", '"process"', "TRUE", ""),        # gated filter flushing through the Broker from Process
 ]
 
 
-def model(scr, fam, hold_close, hold_reopen, tag, hold_process="none", leak=False, leak_tl=False, rec_read=False):
+def model(scr, fam, hold_close, hold_reopen, tag, hold_process="none", leak=False, leak_tl=False, rec_read=False, comp_gateable=False):
     name, procs, progs, cbs, gated, cbw = fam
     cfg = ('CONSTANTS\n  Procs = {%s}\n  Progs <- %s\n  CbSends = {%s}\n  GatedLock = %s\n  HoldClose = "%s"\n  HoldReopen = "%s"\n'
-           '  HoldProcess = "%s"\n  CbWrites = {%s}\n  LeakOnFail = %s\n  LeakTL = %s\n  RecursiveRead = %s\n'
+           '  HoldProcess = "%s"\n  CbWrites = {%s}\n  LeakOnFail = %s\n  LeakTL = %s\n  RecursiveRead = %s\n  ComposedGateable = %s\n'
            'SPECIFICATION Spec\nINVARIANT LockSanity\nPROPERTY EventuallyAllReturn\nCHECK_DEADLOCK TRUE\n') % (
-               procs, progs, cbs, gated, hold_close, hold_reopen, hold_process, cbw, "TRUE" if leak else "FALSE", "TRUE" if leak_tl else "FALSE", "TRUE" if rec_read else "FALSE")
+               procs, progs, cbs, gated, hold_close, hold_reopen, hold_process, cbw, "TRUE" if leak else "FALSE", "TRUE" if leak_tl else "FALSE", "TRUE" if rec_read else "FALSE", "TRUE" if comp_gateable else "FALSE")
     return run_tlc(scr, "locks", "MCLocks", cfg, "%s-%s" % (name, tag), workers=2, timeout=600, heap="2g")
 
 
@@ -41,6 +42,7 @@ def run(prop, tier, seed, out):
             f_bad += [(f, ex.submit(model, scr, f, "none", "none", "leak", "none", True)) for f in FAMILIES if f[0] == "f1"]
             f_bad += [(f, ex.submit(model, scr, f, "none", "none", "leaktl", "none", False, True)) for f in FAMILIES if f[0] == "t1"]
             f_bad += [(f, ex.submit(model, scr, f, "none", "none", "recread", "none", False, False, True)) for f in FAMILIES if f[0] == "r1"]
+            f_bad += [(f, ex.submit(model, scr, f, "none", "none", "compgate", "none", False, False, False, True)) for f in FAMILIES if f[0] == "g1"]
             outp = scr.path("locks.json")
             t0 = time.time()
             p = run_vh(vh, ["locks-run", "-out", outp, "-reps", "1" if quick else "30"], timeout=1500)
@@ -64,7 +66,7 @@ def run(prop, tier, seed, out):
                 if r.violated != "deadlock":
                     raise Broken("Locks.tla (%s) with callbacks under the broker lock does not deadlock: the check is vacuous" % f[0])
             out.notes.append("vacuity: with Close under the write lock / Reopen under the read lock the model deadlocks in scenarios d1, d2, d3; "
-                             "with Send keeping the read lock across Process in w1, w2, w3; with an error exit that keeps the write lock in f1; with a Send that returns between thresholdLock.RLock and RUnlock in t1; with a getter that takes the read lock twice in r1")
+                             "with Send keeping the read lock across Process in w1, w2, w3; with an error exit that keeps the write lock in f1; with a Send that returns between thresholdLock.RLock and RUnlock in t1; with a getter that takes the read lock twice in r1; with a composite that comes back into the gated filter's locked section in g1")
             held = {}
             for r in results:
                 sc = r["scenario"]
